@@ -43,8 +43,8 @@ claim(
 claim(
     "C12",
     "Lean 4 proof (two-way simulation between the visitor's bookkeeping and a declarative bracket automaton); differential correspondence with DiscoverSubcircuits",
-    "Theorems C12_iff, C12_count, C12_errors(_loop) prove for every nesting of blocks and loops (any depth, any counts incl. 0) that subcircuit discovery accepts exactly the programs whose flat token sequence is well-bracketed per the property text (a subcircuit is open at every gate, every measure follows a prepare, no repeating loop closes a subcircuit that was open when its body began), that the traces are exactly the prepare/measure pairs in flat order (trailing prepare yields none, a repeated prepare discards the earlier opening), and that each rejection class names the violated rule.",
-    COMMON_NOTE + "Statements are abstracted to a skeleton (prepare | measure | other gate, block, loop); macro expansion (C04) and the disjointness check (C13) are separate components; reading of the English rule as stated in the evidence assumptions.",
+    "Theorems C12_iff, C12_count, C12_errors(_loop) and, over the whole run model with subcircuit blocks, lets and MACROS EXPANDED, C12_run_accept / C12_run_reject prove for every nesting of blocks and loops (any depth, any counts incl. 0) that subcircuit discovery accepts exactly the programs whose flat token sequence is well-bracketed per the property text (a subcircuit is open at every gate, every measure follows a prepare, no repeating loop closes a subcircuit that was open when its body began), that the traces are exactly the prepare/measure pairs in flat order (trailing prepare yields none, a repeated prepare discards the earlier opening), and that each rejection class names the violated rule.",
+    COMMON_NOTE + "The walker theorems are about the skeleton (prepare | measure | other gate, block, loop) of the expanded circuit; C12_run_accept / _reject (Props/C12Run.lean) connect them to RunModel.runCircuit — a result is produced only if the flat token list of the expanded program is well-bracketed, with one subcircuit per pair, and a program that is not is refused with the JaqalError of a bracket rule; macro expansion itself is C04, the disjointness check C13; reading of the English rule as stated in the evidence assumptions.",
     "DESIGN.md §7 C12",
 )
 claim(
